@@ -379,11 +379,25 @@ def r07_4(prog: Program, rep):
     probe = ast.parse("def f():\n    try:\n        g()\n    except FileLocked:\n        return\n")
 
     def swallowers(tree):
+        # names bound to a tuple of exception classes (`all_exceptions = (IOError, ..., FileLocked)`, locally or at module level)
+        tuples = {}
+        for x in ast.walk(tree):
+            if isinstance(x, ast.Assign) and len(x.targets) == 1 and isinstance(x.targets[0], ast.Name) and isinstance(x.value, ast.Tuple):
+                tuples.setdefault(x.targets[0].id, []).extend(dotted(e) or "" for e in x.value.elts)
         out = []
         for h in [x for x in ast.walk(tree) if isinstance(x, ast.ExceptHandler) and x.type is not None]:
-            names = [dotted(e) or "" for e in (h.type.elts if isinstance(h.type, ast.Tuple) else [h.type])]
-            if any(nm.split(".")[-1] == "FileLocked" for nm in names) and not any(isinstance(y, ast.Raise) for y in ast.walk(h)):
-                out.append(h)
+            names = []
+            for e in (h.type.elts if isinstance(h.type, ast.Tuple) else [h.type]):
+                names += tuples.get(e.id, [e.id]) if isinstance(e, ast.Name) else [dotted(e) or ""]
+            if not any(nm.split(".")[-1] == "FileLocked" for nm in names) or any(isinstance(y, ast.Raise) for y in ast.walk(h)):
+                continue
+            # a handler that RECORDS the failure (assigns a status that is reported) converts the error, it does not swallow it
+            if any(isinstance(y, (ast.Assign, ast.AnnAssign, ast.AugAssign)) for y in ast.walk(h)):
+                continue
+            # ... and so does one that reports the exception it caught (`except E as e: yield (b"unpack", str(e))`)
+            if h.name and any(isinstance(y, ast.Name) and y.id == h.name and isinstance(y.ctx, ast.Load) for y in ast.walk(h)):
+                continue
+            out.append(h)
         return out
     if len(swallowers(probe)) != 1:
         raise AnalysisError("R07.4 detector self-check failed")
